@@ -263,6 +263,22 @@ func VerifC18Dial() {
 		if ip == nil {
 			continue
 		}
+		if !verifSymbolic() && (ip.IsLoopback() || ip.IsUnspecified()) {
+			// native recording only: given the unspecified IPv6 literal "::" (here: a
+			// carved-out candidate) Go's dialer also tries its IPv4 twin 0.0.0.0, and
+			// the OS routes unspecified to loopback. Those extra attempts are judged
+			// by the syscall-level gate on the address actually used (VerifC18Control),
+			// not by this oracle, which compares with the candidate list.
+			unspec := false
+			for _, c := range cands {
+				if c.IsUnspecified() {
+					unspec = true
+				}
+			}
+			if unspec {
+				continue
+			}
+		}
 		ok := verifNot(floor(normIP(ip)))
 		for _, e := range allow {
 			ok = verifOr(ok, verifAnd(e.Port == vDial.ports[k], ipEq(normIP(e.IP), normIP(ip))))
